@@ -37,7 +37,7 @@
          Position.Move, under NoCollision stated explicitly; see the block at the end. *)
 From Coq Require Import NArith ZArith List Bool.
 Require Import Board Move GameOver Refine RefinePlace2 Inst LegalMove LegalMoveLive LegalMoveInst.
-Require Mcts MctsFacts MctsFacts2 MctsFacts3 MctsFacts4 MctsFacts5 PtnFileSafe.
+Require Mcts MctsFacts MctsFacts2 MctsFacts3 MctsFacts4 MctsFacts5 MctsFacts6 EvalTotal GameOverFacts2 PtnFileSafe.
 Require Opening OpeningFacts1 OpeningFacts2 OpeningFacts OpeningFacts3 OpeningEx AllMovesFacts5 Preserve1 Preserve5 TpsFacts5 Generated.Consts.
 Require Search SearchExact SearchInst SearchC CancelEx Reach1 Alloc EvalSpec SearchNeg2 SearchNeg5 SearchLegal2 SearchLegal3 SearchLegal4.
 Import ListNotations.
@@ -268,6 +268,24 @@ Theorem C04_mcts_getmove_no_panic_partial :
   Mcts.get_move F f_neg_inf f_m100 f_p100 f_p10 f_score f_gt f_eq cfg (S fuel) perm p rs <> Panic.
 Proof. exact MctsFacts5.getmove_no_panic_partial. Qed.
 Print Assumptions C04_mcts_getmove_no_panic_partial.
+
+(* THE SAME WITHOUT THE ASSUMPTION: the built-in evaluator is total on the invariant (EvalTotal.v: bitboard.Dimensions measures a
+   group wider than the board - and scoreGroups then indexes past the weight array - only when the group touches both the left and
+   the right edge, i.e. only when the game is over, where evaluate takes the terminal branch).  What remains outside: games of
+   more than 64 pieces (7x7, 8x8), which need a stack-height hypothesis along the rollouts. *)
+Theorem C04_mcts_getmove_no_panic :
+  forall (F : Type) (f_neg_inf f_m100 f_p100 f_p10 : F) (f_score : Z -> Z -> Z -> F) (f_gt f_eq : F -> F -> bool)
+         (cfg : Mcts.mcfg) (fuel : nat) (perm : list nat) (p : position) (c : gcolor) (rs : Mcts.rstream),
+  MctsFacts5.G0 p -> game_over p = Some (false, c) ->
+  Mcts.get_move F f_neg_inf f_m100 f_p100 f_p10 f_score f_gt f_eq cfg (S fuel) perm p rs <> Panic.
+Proof. exact MctsFacts6.getmove_no_panic. Qed.
+Print Assumptions C04_mcts_getmove_no_panic.
+
+(* the evaluator never panics (and never hangs: the loops of Dimensions run on fuel in the model and report exhaustion as a panic):
+   every weight vector, every position of C02's invariant, finished or not *)
+Theorem C04_evaluate_never_panics : forall w p, GameOverFacts2.inv p -> exists v, Eval.evaluate w p = Ok v.
+Proof. exact EvalTotal.evaluate_never_panics. Qed.
+Print Assumptions C04_evaluate_never_panics.
 
 (* non-vacuity: a live 14-ply 5x5 position and the 5x5 start position satisfy the hypotheses above *)
 Theorem C04_mcts_nonvacuous :
